@@ -565,4 +565,40 @@ example : WFKernel tieKernel ∧ LoadsKnown tieKernel ∧ NonnegStages tieKernel
 example : cpMarks negLat [] = [(2, 5)] ∧ cpTotal negLat [] = 5 ∧ cpMarks [] [] = [] ∧
     cpTotal [] [] = 0 := by decide +kernel
 
+/-- **`cp_no_deps`, repaired code**: without any dependency the repaired `get_critical_path` marks
+    exactly one instruction, with its own latency, and no instruction of the kernel is slower
+    (∀ non-empty kernels with increasing lines) -/
+theorem cp_no_deps_repaired (k : List Ins) (hk : WFKernel k) (hne : k ≠ []) :
+    ∃ i ∈ k, cpMarks k [] = [(i.line, i.lat)] ∧ cpTotal k [] = i.lat ∧ ∀ j ∈ k, j.lat ≤ i.lat := by
+  have hnd : (k.map (·.line)).Nodup := nodup_of_sorted _ hk
+  have hrows : ∀ r ∈ cpTable k [], r.longer = none := by
+    apply cpTable_forall
+    intro pre i post _ _
+    rfl
+  have hcl : ∀ j : Ins, chainLengthAt k (cpTable k []) j = j.lat := by
+    intro j
+    unfold chainLengthAt
+    cases hf : (cpTable k []).find? (·.line == j.line) with
+    | none => simp
+    | some r => simp [hrows r (List.mem_of_find?_eq_some hf)]
+  cases hl : cpLast k (cpTable k []) with
+  | none => exact absurd (cpLast_none k _ hl) hne
+  | some i =>
+    obtain ⟨hi, htot⟩ := cpLast_spec k [] i hl
+    have hq : ((cpTable k []).find? (·.line == i.line)).bind (fun r => r.longer.map (·.2)) = none := by
+      cases hf : (cpTable k []).find? (·.line == i.line) with
+      | none => rfl
+      | some r => simp [hrows r (List.mem_of_find?_eq_some hf)]
+    have hpath : cpPath k [] = [i.line] := by
+      unfold cpPath
+      simp only [hl, hq, cpBack_none]
+    have hlat : cpLatOf k i.line = i.lat := by
+      unfold cpLatOf
+      rw [find?_of_nodup_key (·.line) k hnd i hi]
+    refine ⟨i, hi, ?_, by rw [htot, hcl], ?_⟩
+    · simp [cpMarks, hpath, cpMarksFrom, hlat]
+    · intro j hj
+      rw [← hcl i, ← htot, cpTotal_eq_maxOr0]
+      refine le_trans (le_of_eq (hcl j).symm) (maxOr0_ge _ _ (List.mem_map.mpr ⟨j, hj, rfl⟩))
+
 end OsacaVerif.Props.C04
